@@ -14,10 +14,38 @@ from leanfmt import cps, lean_list
 ID = "C17"
 LEAN_MODULES = ["EzdxfVerif.Props.C17"]
 DRIVER_DEPS = ["EzdxfVerif.Model.Xref", "EzdxfVerif.Gen.XrefTables", "Drivers.Proto"]
-RULE = "see manifest"
-TRUSTED_BASE: list[str] = []
-ASSUMPTIONS: list[str] = []
-OPEN: list[str] = []
+RULE = (
+    "correspondence (Lean driver C17 vs real code): X1 _Transfer.map_pointers (tags over all pointer-class boundaries 319/320/329/330/.../481/482/1005, "
+    "handle maps with hits, misses and '0', owner side effect on real target objects), DXFEntity.map_resources (XDATA 1005/1003, reactors), "
+    "map_existing_handle; X2 get_unique_table_name on a real LayerTable and get_unique_dict_key on a real Dictionary with 0..12 occupied candidate slots in "
+    "mixed letter case; X3 the decisions and final key order of real Loader runs (layers, linetypes, styles/dimstyles, blocks incl. anonymous, materials, "
+    "mline/mleader styles; special names; 3 policies; xref prefixes) vs registerAll; X4 the abstract transfer (surviving copies, redirected handle mapping, "
+    "XDATA handle fields of every copy, BLOCK/ENDBLK/content of every copied block record, crash class) of real Loader runs vs Model.transfer with the probed "
+    "guards/discards flags. non-trivial = input reaches a non-default branch (pointer code present / clash / renaming policy / redirection); distinct by "
+    "hash of the request line. oracle: generated source documents (nested blocks, attribs, shared layers/linetypes/styles/dimstyles, complex linetypes, XDATA 1005 "
+    "to loaded / not loaded / in-block entities, extension dictionaries with XRECORD 330/331/340/350/360/320 pointers and nested dictionaries, reactors, groups, "
+    "dimensions with anonymous blocks and user arrows, associative hatches, images, underlays, materials, MLINE/MLEADER styles, leaders, tolerances, paperspace "
+    "with viewports, case-variant names; source handles >= 0xA000 so that a leak is detectable) into non-empty targets with clashing names (also '$0$name' "
+    "occupied) x {load_modelspace, filtered, load_paperspace, Loader mix into a block, load_block_layout(_into), all resources, write_block, detach+embed, "
+    "Importer} x 3 policies x version pairs R2000..R2018: source snapshot unchanged; written target passes harness/dxfparse.check_file, audit clean; every "
+    "pointer-code tag / XDATA 1005 of every new record resolves or is 0; per transferred record tag-by-tag: pointers = sigma(source pointer) or 0, other tags "
+    "equal, names mapped as the policy prescribes; block contents and layout order are the image of the source; referenced resources exist."
+)
+TRUSTED_BASE = [
+    "hand model Model/Xref.lean of xref.py (validated by X1-X4, not proved); per-entity register_resources/map_resources overrides are not modelled",
+    "ASCII case folding stands for str.lower() in make_table_key",
+    "harness/dxfparse.py + the tag-level record comparison of harness/props/c17.py (oracle side)",
+    "the handle allocation of CopyMachine/factory.bind enters the graph theorems as hypothesis WF (injective, fresh, non-null)",
+]
+ASSUMPTIONS = [
+    "target DXF version >= source DXF version (documented precondition of the Loader)",
+    "generated names are ASCII and free of backslashes; source documents pass doc.audit() before the transfer",
+]
+OPEN = [
+    "transfer_closed covers the generic pointer fields (pointer-code tags, XDATA handles, resource handles); the structural links of a restored block record are "
+    "proved for one registration step (block_record_restore), not carried through the whole transfer",
+    "the bodies of the ~50 per-entity map_resources overrides are oracle-only",
+]
 
 logging.getLogger("ezdxf").setLevel(logging.CRITICAL)
 
@@ -78,10 +106,33 @@ def regenerate(ctx):
         guards = True
     except AttributeError:
         guards = False
-    # probe: is a block-record copy without restored content discarded together with its content copies? (source text)
+    # probe: with KEEP and a clashing block name, are the copied BLOCK / ENDBLK / content of the source block gone
+    # after the transfer (and the pointers to them null)?  Only observable when the guard exists.
     x = ctx.src("src/ezdxf/xref.py")
-    body = x[x.index("def add_block_record_entry"):x.index("def restore_block_content")]
-    discards = "destroy()" in body.split("if block_record.is_alive:")[-1]
+    discards = False
+    if guards:
+        import ezdxf
+
+        s_, t_ = ezdxf.new(), ezdxf.new()
+        s_.blocks.new("INNER").add_line((0, 0), (1, 1))
+        s_.modelspace().add_blockref("INNER", (0, 0))
+        t_.blocks.new("INNER")
+        before_ = set(t_.entitydb.keys())
+        xref.load_modelspace(s_, t_)
+        new_ = [t_.entitydb[h] for h in t_.entitydb.keys() if h not in before_]
+        discards = not any(e.dxftype() in ("BLOCK", "ENDBLK", "LINE") for e in new_)
+    # probe: a special ("*...") layer that is missing in the target: added unchanged, or sent through the renaming policy?
+    import ezdxf as _ez
+
+    s2, t2 = _ez.new(), _ez.new()
+    s2.layers.add("*ADSK_PROBE")
+    ld = xref.Loader(s2, t2, conflict_policy=xref.ConflictPolicy.XREF_PREFIX)
+    ld.load_layers(["*ADSK_PROBE"])
+    try:
+        ld.execute(xref_prefix="x")
+        special_unchanged = t2.layers.has_entry("*ADSK_PROBE")
+    except const.DXFValueError:
+        special_unchanged = False
     strs = lambda xs: lean_list(f"[{', '.join(str(ord(ch)) for ch in x)}]" for x in xs)
     sample_special = [n for n in ["0", "DEFPOINTS", "*ADSK_SYSTEM_LIGHTS", "*ADSK_CONSTRAINTS", "*ADSK", "ADSK", "*adsk_x", "L1", ""]
                       if validator.is_adsk_special_layer(n)]
@@ -111,8 +162,11 @@ def standardName : List Nat := {strs([xref.STANDARD])[1:-1]}
 
 /-- probe: `BlockRecord.destroy()` returns normally for a BLOCK_RECORD whose BLOCK/ENDBLK are still None -/
 def destroyGuardsNone : Bool := {str(guards).lower()}
-/-- probe: `add_block_record_entry` destroys the copied content of a block record that was not kept alive -/
+/-- probe: after KEEP with a clashing block name the copied BLOCK / ENDBLK / content are gone from the target database -/
 def discardsContentOfKeptBlock : Bool := {str(discards).lower()}
+/-- probe: a special layer ("*NAME") missing in the target is added under its own name (false: it is renamed by the
+    policy, and "<xref>$0$*NAME" is rejected by the layer-name validator) -/
+def specialLayerAddedUnchanged : Bool := {str(special_unchanged).lower()}
 
 end EzdxfVerif.Gen.XrefTables
 """
@@ -131,7 +185,7 @@ end EzdxfVerif.Gen.XrefTables
 # ================================================================== generators
 FEATURES = ["layers", "blocks", "nested", "attribs", "xdata", "xdict", "reactors", "group", "dim", "hatch", "image",
             "underlay", "material", "mline", "mleader", "leader", "polyline", "text", "complex_ltype", "paperspace",
-            "case_variant", "dimblk", "layer_material", "insert_in_xdata", "tolerance", "shape"]
+            "case_variant", "dimblk", "layer_material", "insert_in_xdata", "tolerance", "shape", "xdata_into_block", "adsk_layer"]
 
 
 def pick_features(rng, k=None):
@@ -185,6 +239,9 @@ def build_source(version: str, feats, rng, filename: str | None = None):
     msp.add_point((3, 4, 5), dxfattribs=gfx())
     if mat is not None and "material" in f:
         line.dxf.material_handle = mat.dxf.handle
+    if "adsk_layer" in f:
+        doc.layers.add("*ADSK_VERIF")   # Autodesk special layer (leading asterisk)
+        msp.add_circle((7, 7), 0.5, dxfattribs={"layer": "*ADSK_VERIF"})
     if "text" in f:
         msp.add_text("abc", dxfattribs={**gfx(), "style": "TS1" if "case_variant" not in f else "ts1"})
         msp.add_mtext("x\\Py", dxfattribs={**gfx(), "style": "TS2"})
@@ -279,6 +336,9 @@ def build_source(version: str, feats, rng, filename: str | None = None):
     if "insert_in_xdata" in f:
         doc.appids.add("VAPP2")
         line.set_xdata("VAPP2", [(1005, not_loaded.dxf.handle)])
+    if "xdata_into_block" in f and "B_A" in doc.blocks:
+        doc.appids.add("VAPP3")
+        circle.set_xdata("VAPP3", [(1005, doc.blocks.get("B_A")[0].dxf.handle)])
     if "xdict" in f:
         xd = line.new_extension_dict()
         xr = xd.add_xrecord("VREC")
@@ -488,23 +548,32 @@ class Capture:
         from ezdxf import xref
 
         self._orig = xref._Transfer.finalize
+        self._orig_init = xref._Transfer.__init__
         cap = self
 
         def finalize(t):
             cap.transfers.append(t)
             return cap._orig(t)
 
+        def init(t, *a, **kw):
+            cap._orig_init(t, *a, **kw)
+            t._alloc = dict(t.handle_mapping)   # CopyMachine's allocation before any redirection
+            cap.started.append(t)
+
+        self.started = []
         xref._Transfer.finalize = finalize
+        xref._Transfer.__init__ = init
         return self
 
     def __exit__(self, *a):
         from ezdxf import xref
 
         xref._Transfer.finalize = self._orig
+        xref._Transfer.__init__ = self._orig_init
 
 
 OPS = ["msp", "msp_filter", "psp", "loader_mix", "block_into", "resources", "write_block", "detach_embed", "importer"]
-IMPORTER_FEATURES = ["layers", "blocks", "nested", "attribs", "xdata", "xdict", "reactors", "group", "dim", "hatch", "leader",
+IMPORTER_FEATURES = ["adsk_layer", "layers", "blocks", "nested", "attribs", "xdata", "xdict", "reactors", "group", "dim", "hatch", "leader",
                      "polyline", "text", "complex_ltype", "case_variant", "dimblk", "layer_material", "material", "shape", "paperspace"]
 
 
@@ -687,7 +756,8 @@ class Analysis:
             if ra is None:
                 self.report(f"target-entity-removed/{typ}", f"pre-existing target {typ} #{h} vanished")
                 continue
-            if typ == "TABLE":
+            if typ in ("TABLE", "BLOCK"):
+                # entry count of a table head; block flags (e.g. "has attribute definitions") are recomputed at export
                 if [t for t in rb if t[0] != 70] == [t for t in ra if t[0] != 70]:
                     continue
             if typ in ("DICTIONARY", "ACDBDICTIONARYWDFLT", "IMAGEDEF", "PDFDEFINITION", "DWFDEFINITION", "DGNDEFINITION"):
@@ -1125,10 +1195,9 @@ def embed_back(host, detached, info, spec, rng, tmpdir):
     fails, seen = [], set()
 
     def report(key, what):
-        key = "embed/" + key
         if key not in seen:
             seen.add(key)
-            fails.append((key, what))
+            fails.append((key, "embed(): " + what))
 
     an = Analysis(report)
     path = os.path.join(tmpdir, "detached.dxf")
@@ -1230,6 +1299,10 @@ def run_case(spec, tmpdir=None):
         tr = cap.transfers[-1]
         sigma = {norm(k): norm(v) for k, v in tr.handle_mapping.items()}
         tdoc = info["tgt"]
+        for k, v in tr._alloc.items():   # copies that were placed although their block definition was not taken over
+            e_ = tdoc.entitydb.get(v)
+            if norm(k) not in sigma and e_ is not None and e_.is_alive and e_.dxf.owner is not None:
+                sigma[norm(k)] = norm(v)
         sa = Snap(src)
         ta = Snap(tdoc)
         if op in ("write_block", "detach_embed"):
@@ -1258,3 +1331,502 @@ def run_case(spec, tmpdir=None):
         if own_tmp:
             own_tmp.cleanup()
     return fails, an.stats, None
+
+
+# ================================================================== correspondence: model (Lean driver) vs real functions
+PTR_CODES = [0, 1, 5, 105, 319, 320, 325, 329, 330, 331, 339, 340, 345, 349, 350, 355, 359, 360, 365, 369, 370, 389, 390,
+             395, 399, 400, 479, 480, 481, 482, 1000, 1003, 1004, 1005, 1006, 1071]
+
+
+def scps(s: str) -> str:
+    return cps(s)
+
+
+def enc_sigma(d: dict) -> str:
+    return ";".join(f"{cps(k)}>{cps(v)}" for k, v in d.items())
+
+
+def enc_tags(tags) -> str:
+    return ";".join(f"{c}:{cps(str(v))}" for c, v in tags)
+
+
+def gen_handles(rng, n, base=0x100):
+    return ["%X" % (base + i * rng.randint(1, 3)) for i in range(n)]
+
+
+def corr_pointers(ctx, cases):
+    """X1: _Transfer.map_pointers / DXFEntity.map_resources (XDATA, reactors) / map_existing_handle"""
+    import ezdxf
+    from ezdxf import xref
+    from ezdxf.lldxf.tags import Tags
+    from ezdxf.lldxf.types import DXFTag
+    from ezdxf.entities import DXFEntity, Line, Layer
+
+    rng = ctx.rng("x1")
+    sdoc, tdoc = ezdxf.new(), ezdxf.new()
+    objs = [tdoc.rootdict.add_xrecord(f"VX{i}") for i in range(5)]
+    dbh = [o.dxf.handle for o in objs]
+    reg = xref._Registry(sdoc, tdoc)
+    n = ctx.n(1500, 20000)
+    codes_all = list(range(0, 1072))
+    for i in range(n):
+        src_handles = gen_handles(rng, rng.randint(0, 6), 0xA000)
+        pool = dbh + ["0", "FFF0", "FFF1", ""]
+        sigma = {h: rng.choice(pool[:7]) for h in src_handles if rng.random() < 0.8}
+        tr = xref._Transfer(registry=reg, copies={}, objects={}, handle_mapping=dict(sigma), copy_errors=set())
+        vals = src_handles + ["0", "BEEF", "", "A000"] + dbh[:2]
+        k = rng.randint(0, 10)
+        tags = [(rng.choice(PTR_CODES) if rng.random() < 0.8 else rng.choice(codes_all), rng.choice(vals)) for _ in range(k)]
+        kind = i % 4
+        if kind == 0 or kind == 1:
+            owner = rng.choice(["", "", "1F", dbh[0]])
+            for o in objs:
+                o.dxf.owner = "C"
+            real = Tags([DXFTag(c, v) for c, v in tags])
+            tr.map_pointers(real, new_owner_handle=owner)
+            changed = sorted((o.dxf.handle for o in objs if o.dxf.owner != "C"), key=lambda h: [ord(ch) for ch in h])
+            if owner == "C":
+                changed = []
+            impl = enc_tags([(t.code, t.value) for t in real]) + "|" + ";".join(cps(h) for h in changed)
+            req = f"mp|{cps(owner)}|{';'.join(cps(h) for h in dbh)}|{enc_sigma(sigma)}|{enc_tags(tags)}"
+            nontriv = any(is_ptr(c) or is_arbitrary(c) for c, _ in tags)
+            ctx.hist("X1 pointers", "map_pointers")
+        elif kind == 2:
+            xt = [(rng.choice([1000, 1003, 1005, 1005, 1070, 1002, 1004]), rng.choice(vals + ["L1", "L2"])) for _ in range(k)]
+            xt = [(c, v if c not in (1070,) else 7) for c, v in xt]
+            lay = {"L1": "x$0$L1"} if rng.random() < 0.6 else {}
+            tr.layer_mapping.update(lay)
+            tr.layer_mapping.update({k.lower(): v for k, v in lay.items()})   # key form of either revision of the code
+            e = Line.new(handle="A0FF", dxfattribs={"layer": "0"})
+            e.set_xdata("VAPP", xt)
+            rs = [rng.choice(vals[:-3] or ["0"]) for _ in range(rng.randint(0, 4))]
+            rs = [r for r in rs if r]
+            if rs:
+                e.set_reactors(rs)
+            clone = e.copy()
+            DXFEntity.map_resources(e, clone, tr)
+            got = [(t.code, t.value) for t in clone.xdata.get("VAPP")][1:]
+            impl = enc_tags(got)
+            req = f"mx|{enc_sigma(sigma)}|{enc_sigma(lay)}|{enc_tags(xt)}"
+            cases.append((req, impl, any(c in (1005, 1003) for c, _ in xt)))
+            rr = clone.reactors.reactors if clone.reactors else None
+            impl = "none" if rr is None else "set " + ";".join(cps(h) for h in sorted(set(rr), key=lambda h: [ord(ch) for ch in h]))
+            req = f"mr|{enc_sigma(sigma)}|{';'.join(cps(h) for h in rs)}"
+            nontriv = bool(rs)
+            ctx.hist("X1 pointers", "xdata+reactors")
+        else:
+            present = rng.random() < 0.8
+            h = rng.choice(vals)
+            opt = rng.random() < 0.5
+            s_ = Layer.new(handle="A0FE", dxfattribs={"name": "S", **({"material_handle": h} if present else {})})
+            c_ = Layer.new(handle="20FE", dxfattribs={"name": "S", "material_handle": "SENTINEL"})
+            tr.map_existing_handle(s_, c_, "material_handle", optional=opt)
+            v = c_.dxf.get("material_handle")
+            impl = "discarded" if v is None else ("untouched" if v == "SENTINEL" else "set " + cps(v))
+            req = f"me|{enc_sigma(sigma)}|{int(present)}|{cps(h)}|{int(opt)}"
+            nontriv = present and h != ""
+            ctx.hist("X1 pointers", "map_existing_handle")
+        cases.append((req, impl, nontriv))
+
+
+NAME_ALPHA = "ABab019_$-"
+
+
+def gen_name(rng):
+    base = rng.choice(["L1", "l1", "A", "a", "Ab", "$0$A", "X", "0", "Defpoints", "DEFPOINTS", "STANDARD", "Standard", "B_A"])
+    if rng.random() < 0.3:
+        base = "".join(rng.choice(NAME_ALPHA) for _ in range(rng.randint(1, 4)))
+    return base
+
+
+def corr_unique(ctx, cases):
+    """X2: get_unique_table_name on a real LayerTable, get_unique_dict_key on a real Dictionary"""
+    import ezdxf
+    from ezdxf import xref
+
+    rng = ctx.rng("x2")
+    doc = ezdxf.new()
+    d = doc.rootdict.add_new_dict("VTEST")
+    ph = doc.objects.add_placeholder(owner=d.dxf.handle)
+    for i in range(ctx.n(1200, 15000)):
+        name = gen_name(rng)
+        xr = rng.choice(["", "", "x", "X", "ref", "$0"])
+        k = rng.choice([0, 1, 2, 3, 5, 8, 12])
+        # occupy a prefix of the candidate sequence (both letter cases) plus unrelated names
+        occ = []
+        for j in range(k):
+            cand = f"{xr}${j}${name}"
+            if rng.random() < 0.9:
+                occ.append(cand.upper() if rng.random() < 0.4 else cand.lower() if rng.random() < 0.5 else cand)
+        occ += [gen_name(rng) for _ in range(rng.randint(0, 3))]
+        if i % 2 == 0:
+            added = []
+            for o in occ:
+                if not doc.layers.has_entry(o):
+                    doc.layers.add(o)
+                    added.append(o)
+            keys = [l.dxf.name.lower() for l in doc.layers]
+            impl = cps(xref.get_unique_table_name(name, xr, doc.layers))
+            for o in added:
+                doc.layers.remove(o)
+            cases.append((f"un|{cps(name)}|{cps(xr)}|{';'.join(cps(x) for x in keys)}", impl, k > 0))
+            ctx.hist("X2 unique names", f"table/{min(k, 9)}")
+        else:
+            for o in occ:
+                d.add(o, ph)
+            keys = list(d.keys())
+            impl = cps(xref.get_unique_dict_key(name, xr, d))
+            for o in set(occ):
+                d.discard(o)
+            cases.append((f"ud|{cps(name)}|{cps(xr)}|{';'.join(cps(x) for x in keys)}", impl, k > 0))
+            ctx.hist("X2 unique names", f"dict/{min(k, 9)}")
+
+
+def corr_policy(ctx, cases):
+    """X3: the conflict-policy decisions of a real Loader run over generated name sets"""
+    import ezdxf
+    from ezdxf import xref
+    from ezdxf.xref import ConflictPolicy, Loader
+    from ezdxf.lldxf import const
+
+    rng = ctx.rng("x3")
+    kinds = ["layer", "ltype", "table", "table", "block", "material", "standard"]
+    skipped = 0
+    for i in range(ctx.n(260, 3000)):
+        kind = kinds[i % len(kinds)]
+        policy = POLICIES[(i // len(kinds)) % 3]
+        xr = rng.choice(["", "x", "Ref"])
+        sdoc, tdoc = ezdxf.new(), ezdxf.new()
+        sub = None
+        specials = {"layer": ["0", "Defpoints", "DEFPOINTS", "*ADSK_X"], "ltype": ["Continuous", "BYLAYER", "ByBlock", "CONTINUOUS"],
+                    "table": ["Standard", "STANDARD"], "block": ["*U1", "*D7", "*", "_ARROW"], "material": ["Global", "ByLayer", "GLOBAL"],
+                    "standard": ["Standard", "STANDARD"]}[kind]
+
+        def names(n):
+            out = []
+            for _ in range(n):
+                nm = rng.choice(specials) if rng.random() < 0.3 else gen_name(rng)
+                if kind == "block":
+                    nm = nm.replace("$", "S") if False else nm
+                out.append(nm)
+            return out
+
+        if kind == "layer":
+            st, tt, load = sdoc.layers, tdoc.layers, "load_layers"
+            add = lambda t, n: t.add(n)
+        elif kind == "ltype":
+            st, tt, load = sdoc.linetypes, tdoc.linetypes, "load_linetypes"
+            add = lambda t, n: t.add(n, pattern=[0.2, 0.1, -0.1])
+        elif kind == "table":
+            which = rng.choice(["styles", "dimstyles"])
+            st, tt = getattr(sdoc, which), getattr(tdoc, which)
+            load = "load_text_styles" if which == "styles" else "load_dim_styles"
+            add = (lambda t, n: t.add(n, font="txt.shx")) if which == "styles" else (lambda t, n: t.new(n))
+        elif kind == "block":
+            st, tt, load = sdoc.block_records, tdoc.block_records, None
+            add = None
+        elif kind == "material":
+            st, tt, load = sdoc.materials, tdoc.materials, "load_materials"
+            add = lambda t, n: t.new(n)
+        else:
+            which = rng.choice(["mline_styles", "mleader_styles"])
+            st, tt = getattr(sdoc, which), getattr(tdoc, which)
+            load = "load_" + which
+            add = (lambda t, n: t.new(n)) if which == "mline_styles" else (lambda t, n: t.duplicate_entry("Standard", n))
+        has = (lambda t, n: t.has_entry(n))
+        tnames, snames = names(rng.randint(0, 5)), names(rng.randint(1, 5))
+        # prefixed variants occupy the first candidate slots now and then
+        for nm in list(snames):
+            if rng.random() < 0.3:
+                tnames.append(f"{xr if policy == 'XREF_PREFIX' else ''}$0${nm}")
+        try:
+            for nm in tnames:
+                if kind == "block":
+                    if not nm.startswith("*") and nm not in tdoc.blocks:
+                        tdoc.blocks.new(nm)
+                elif not has(tt, nm):
+                    add(tt, nm)
+            used = []
+            for nm in snames:
+                if kind == "block":
+                    if nm in sdoc.blocks or nm == "*":
+                        continue
+                    if nm.startswith("*"):
+                        b = sdoc.blocks.new_anonymous_block(nm[1])
+                        nm = b.name
+                    else:
+                        sdoc.blocks.new(nm).add_line((0, 0), (1, 1))
+                    used.append(nm)
+                else:
+                    if not has(st, nm):
+                        add(st, nm)
+                        used.append(nm)
+                    elif nm.lower() in [s.lower() for s in specials] and nm not in used and st.get(nm) is not None:
+                        used.append(nm)
+        except Exception:  # invalid generated name for this table type
+            skipped += 1
+            continue
+        if not used:
+            continue
+        if kind in ("material", "standard"):
+            before = [(k, int(e.dxf.handle, 16)) for k, e in tt]
+        else:
+            before = [(e.dxf.name.lower(), int(e.dxf.handle, 16)) for e in tt]
+        before_handles = {h for _, h in before}
+        src_entries = []
+        for nm in used:
+            e = st.get(nm)
+            src_entries.append((e.dxf.name, e.dxf.handle))
+        loader = Loader(sdoc, tdoc, conflict_policy=getattr(ConflictPolicy, policy))
+        if kind == "block":
+            for nm in used:
+                loader.load_block_layout(sdoc.blocks.get(nm))
+        else:
+            getattr(loader, load)(used)
+        with Capture() as cap:
+            try:
+                loader.execute(xref_prefix=xr)
+            except AttributeError as e:
+                if "destroy" in str(e):
+                    ctx.hist("X3 policy", "skipped: known crash (KEEP + block clash)")
+                    continue
+                raise
+            except const.DXFValueError as e:
+                if "Invalid value" not in str(e):
+                    raise
+                req = (f"pol|{kind}|{policy}|{cps(xr)}|{';'.join(f'{cps(k)}:{h}' for k, h in before)}|"
+                       f"{';'.join(f'{cps(n)}:{int(h, 16) + 0x100000}' for n, h in src_entries)}")
+                cases.append((req, "RAISE DXFValueError", True))
+                ctx.hist("X3 policy", f"{kind}/{policy}/invalid-name")
+                continue
+        tr = cap.transfers[-1]
+        decs = []
+        order = [h for h in tr.copied_blocks["0"] if any(h == sh for _, sh in src_entries)] if kind not in ("material", "standard") else \
+            [h for h in tr.copied_objects if any(h == sh for _, sh in src_entries)]
+        by_handle = {sh: nm for nm, sh in src_entries}
+        seq = []
+        for sh in order:
+            nm = by_handle[sh]
+            th = tr.handle_mapping.get(sh)
+            ent = tdoc.entitydb.get(th) if th else None
+            hnum = int(th, 16) if th else 0
+            seq.append((nm, int(sh, 16) + 0x100000))
+            if ent is None:
+                decs.append("E")
+            elif hnum in before_handles:
+                decs.append(f"U{hnum}")
+            else:
+                newname = ent.dxf.name
+                if kind == "block" and nm.startswith("*") and len(nm) > 1:
+                    newname = "*" + newname[1] + "?" if newname.upper().startswith("*" + nm[1].upper()) and newname not in [b for b, _ in before] else newname
+                decs.append("A" + cps(newname))
+        if kind in ("material", "standard"):
+            after = [k for k, e in tt]
+        else:
+            after = [e.dxf.name.lower() for e in tt]
+        if kind == "block":
+            # anonymous names are chosen by the target's counter: compare the form only
+            after = [("*" + a[1] + "?") if (a.startswith("*") and a not in [b for b, _ in before] and len(a) > 1) else a for a in after]
+        impl = ";".join(decs) + "|" + ";".join(cps(a) for a in after)
+        req = (f"pol|{kind}|{policy}|{cps(xr)}|{';'.join(f'{cps(k)}:{h}' for k, h in before)}|"
+               f"{';'.join(f'{cps(n)}:{h}' for n, h in seq)}")
+        clash = any(n.lower() in [b.lower() for b, _ in before] for n, _ in seq)
+        cases.append((req, impl, clash or policy == "XREF_PREFIX"))
+        ctx.hist("X3 policy", f"{kind}/{policy}")
+    if skipped:
+        ctx.hist("X3 policy", "skipped: name rejected by the table", skipped)
+
+
+def abstract_node(e, db):
+    """(kind letter, owner, xdata-1005 pointers, block, endblk, content) of a real entity"""
+    from ezdxf.entities import BlockRecord, Block, EndBlk, is_graphic_entity, is_dxf_object
+
+    def hx(v):
+        try:
+            return int(str(v), 16)
+        except (TypeError, ValueError):
+            return 0
+
+    if isinstance(e, BlockRecord):
+        k = "r"
+    elif isinstance(e, Block):
+        k = "b"
+    elif isinstance(e, EndBlk):
+        k = "e"
+    elif is_graphic_entity(e):
+        k = "g"
+    elif is_dxf_object(e):
+        k = "o"
+    else:
+        k = "t"
+    ptrs = []
+    if e.xdata:
+        for tags in e.xdata.data.values():
+            ptrs += [hx(t.value) for t in tags if t.code == 1005]
+    b = en = 0
+    content = []
+    if k == "r":
+        b = hx(e.block.dxf.handle) if e.block is not None else 0
+        en = hx(e.endblk.dxf.handle) if e.endblk is not None else 0
+        content = [hx(x.dxf.handle) for x in e.entity_space]
+    return k, hx(e.dxf.owner) if e.dxf.owner else 0, ptrs, b, en, content
+
+
+def corr_transfer(ctx, cases):
+    """X4: the abstract transfer of Model/Xref.lean §5 against real Loader runs: which copies survive, the redirected
+    handle mapping, the XDATA handle fields of every copy, BLOCK/ENDBLK/content of every copied block record"""
+    from ezdxf.entities import (Layer, Linetype, Textstyle, DimStyle, BlockRecord, UCSTableEntry, Material, MLineStyle,
+                                MLeaderStyle, VisualStyle)
+
+    rng = ctx.rng("x4")
+    tmp = tempfile.TemporaryDirectory(dir=str(ctx.scratch))
+    n = ctx.n(70, 700)
+    ops = ["msp", "msp_filter", "loader_mix", "block_into", "resources", "psp"]
+    for i in range(n):
+        spec = gen_case(rng, i)
+        spec["op"] = ops[i % len(ops)]
+        feats = (set(spec["feats"]) | {"xdata"}) - {"adsk_layer"}   # the layer-name validator is X3's subject
+        if spec["op"] == "psp":
+            feats.add("paperspace")
+        if spec["op"] == "block_into":
+            feats.add("blocks")
+        if i % 3 == 0:
+            feats |= {"blocks", "nested"}
+            spec["clash"] = sorted(set(spec["clash"]) | {"block"})
+        crng = random.Random(spec["seed"])
+        src = build_source(spec["sver"], sorted(feats), crng)
+        tgt = build_target(spec["tver"], spec["clash"], crng, "")
+        tgt_before = [int(h, 16) for h in tgt.entitydb.keys()]
+        tgt_br = {int(b.dxf.handle, 16) for b in tgt.block_records}
+        err = None
+        loaded = {}
+        with Capture() as cap:
+            try:
+                loaded = run_transfer(spec["op"], src, tgt, spec["policy"], crng, tmp.name)
+            except AttributeError as e:
+                if "destroy" not in str(e):
+                    raise
+                err = "err AttributeError"
+        tr = (cap.transfers or cap.started)[-1]
+        alloc = {s: c for s, c in tr._alloc.items() if src.entitydb.get(s) is not None}
+        snodes = []
+        for s in alloc:
+            k, o, ptrs, b, en, content = abstract_node(src.entitydb.get(s), src.entitydb)
+            snodes.append(f"{int(s, 16)},{k},{o},{' '.join(map(str, ptrs))},{b},{en},{' '.join(map(str, content))}")
+        tnodes = [f"{h},{'r' if h in tgt_br else 'o'},0,,0,0," for h in tgt_before]
+        sig = ";".join(f"{int(s, 16)}>{int(c, 16)}" for s, c in alloc.items())
+        regs = []
+        shape = set()
+        for s, c in alloc.items():
+            e = src.entitydb.get(s)
+            if isinstance(e, (Layer, Linetype, Textstyle, DimStyle, BlockRecord, UCSTableEntry, Material, MLineStyle, MLeaderStyle, VisualStyle)):
+                if c in tr._replace_handles:
+                    regs.append(f"{int(s, 16)}:K{int(tr._replace_handles[c], 16)}")
+                    if isinstance(e, Textstyle) and e.is_shape_file:
+                        shape.add(c)
+                else:
+                    regs.append(f"{int(s, 16)}:A")
+        # the copies the loading commands put into a layout: the entities the harness asked to load
+        placed = [int(alloc[h], 16) for h in (loaded.get("loaded") or []) if h in alloc]
+        req = f"tr|{';'.join(snodes)}|{';'.join(tnodes)}|{sig}|{';'.join(regs)}|{' '.join(map(str, placed))}"
+        if err:
+            impl = err
+        else:
+            out = []
+            for s, c in alloc.items():
+                ce = tgt.entitydb.get(c)
+                if ce is None or not ce.is_alive or c in shape:
+                    continue
+                k, o, ptrs, b, en, content = abstract_node(ce, tgt.entitydb)
+                out.append(f"{int(c, 16)},{' '.join(map(str, ptrs))},{b},{en},{' '.join(map(str, content))}")
+            sig2 = ";".join(f"{int(s, 16)}>{int(tr.handle_mapping.get(s, '0'), 16)}" for s in alloc)
+            same = all(abstract_node(src.entitydb.get(s), src.entitydb) == tuple(x) for s, x in
+                       ((s, abstract_node(src.entitydb.get(s), src.entitydb)) for s in alloc))
+            impl = "ok " + ";".join(out) + "|" + sig2 + "|src-same"
+        cases.append((req, impl, bool(tr._replace_handles) or any("," in x and x.split(",")[3] for x in snodes)))
+        ctx.hist("X4 abstract transfer", f"{spec['op']}/{spec['policy']}" + ("/crash" if err else ""))
+    tmp.cleanup()
+
+
+def correspond(ctx):
+    for name, fn in (("X1 pointers", corr_pointers), ("X2 unique names", corr_unique), ("X3 policy", corr_policy),
+                     ("X4 abstract transfer", corr_transfer)):
+        cases = []
+        fn(ctx, cases)
+        ctx.correspond(name, "C17", cases, build=DRIVER_DEPS)
+
+
+# ================================================================== oracle
+FIXED_CASES = [
+    # F14, minimal: block INNER + INSERT in the source, block INNER in the target, default policy
+    {"fixed": "f14"},
+]
+
+
+def run_fixed(name):
+    import ezdxf
+    from ezdxf import xref
+
+    fails = []
+    if name == "f14":
+        for pol in POLICIES:
+            src = ezdxf.new()
+            src.blocks.new("INNER").add_line((0, 0), (1, 1))
+            src.modelspace().add_blockref("INNER", (0, 0))
+            tgt = ezdxf.new()
+            tgt.blocks.new("INNER").add_circle((0, 0), 1)
+            try:
+                xref.load_modelspace(src, tgt, conflict_policy=getattr(xref.ConflictPolicy, pol))
+                ins = tgt.modelspace()[0]
+                want = {"KEEP": "INNER", "XREF_PREFIX": "$0$INNER", "NUM_PREFIX": "$0$INNER"}[pol]
+                kinds = [e.dxftype() for e in tgt.blocks.get(ins.dxf.name)]
+                if ins.dxf.name != want or kinds != (["CIRCLE"] if pol == "KEEP" else ["LINE"]):
+                    fails.append((f"policy/{pol}/BLOCK_RECORD/minimal", f"INSERT refers to {ins.dxf.name} holding {kinds}"))
+                aud = tgt.audit()
+                for e in list(aud.errors) + list(aud.fixes):
+                    fails.append((f"audit/{squash(e.message)}", f"minimal block clash, {pol}: {e.message}"))
+            except Exception as e:  # noqa
+                site = crash_site(e)
+                if site is None:
+                    raise
+                fails.append((f"crash/{type(e).__name__}/{site}/{pol}", f"load_modelspace with {pol}, block name clash: {type(e).__name__}: {e}"))
+    return fails
+
+
+def oracle(ctx):
+    os.environ["VERIF_SCRATCH"] = str(ctx.scratch)
+    for fc in FIXED_CASES:
+        for k, w in run_fixed(fc["fixed"]):
+            ctx.fail(k, w, {"fixed": fc["fixed"]})
+        ctx.count("O1 transfer oracle", repr(fc), True)
+    rng = ctx.rng("oracle")
+    n = ctx.n(330, 6000)
+    stats = {}
+    for i in range(n):
+        spec = gen_case(rng, i)
+        fails, st, err = run_case(spec)
+        if err:
+            ctx.note(f"oracle case without captured transfer: {err} {spec}")
+        for k, v in st.items():
+            if k.startswith(("unified", "nulled", "dropped-pointer", "arbitrary", "mapped-to-existing", "discarded", "copy-errors")):
+                stats[k] = stats.get(k, 0) + v
+        ctx.count("O1 transfer oracle", repr(sorted(spec.items())), bool(spec["clash"]) or spec["policy"] != "KEEP",
+                  sample={"spec": {k: spec[k] for k in ("op", "policy", "sver", "tver", "feats", "clash")}, "failures": [k for k, _ in fails][:5]})
+        ctx.hist("O1 transfer oracle", f"{spec['op']}/{spec['policy']}")
+        ctx.hist("O1 transfer oracle", f"versions {spec['sver']}->{spec['tver']}")
+        for k, w in fails:
+            ctx.fail(k, f"{w}   [op={spec['op']} policy={spec['policy']} {spec['sver']}->{spec['tver']} features={','.join(spec['feats'])} clash={','.join(spec['clash'])}]", {"spec": spec})
+    ctx.note("oracle bookkeeping (not failures): " + ", ".join(f"{k}={v}" for k, v in sorted(stats.items())))
+
+
+def replay(ctx, rep):
+    bad = []
+    for f in rep.get("failing_inputs", []):
+        r = f["replay"]
+        if "fixed" in r:
+            fails = run_fixed(r["fixed"])
+        else:
+            fails, _, _ = run_case(r["spec"])
+        if any(k == f["key"] for k, _ in fails):
+            bad.append(f["key"])
+    return (not bad, "; ".join(bad) or "all recorded failing inputs pass now")
